@@ -18,7 +18,7 @@ import (
 const verifC01KnownFirstProposal = "acked-first-proposal-truncated:base=0"
 
 type verifScriptWeights struct {
-	commit, retry, failover, reinstall, crash, restart, isolate, cut, heal, drop, flush, staleCommit, badInstall, fence, cleanFailover, pageCut int
+	commit, retry, failover, reinstall, crash, restart, isolate, cut, heal, drop, flush, staleCommit, badInstall, fence, cleanFailover, pageCut, divergentTail int
 }
 
 type verifScriptOpts struct {
@@ -150,7 +150,7 @@ func verifRunScript(rt *rapid.T, k *kit.Case, s *verifSim, o verifScriptOpts) ve
 	}
 	actions := []action{{"commit", w.commit}, {"retry", w.retry}, {"failover", w.failover}, {"reinstall", w.reinstall}, {"crash", w.crash},
 		{"restart", w.restart}, {"isolate", w.isolate}, {"cut", w.cut}, {"heal", w.heal}, {"drop", w.drop}, {"flush", w.flush},
-		{"staleCommit", w.staleCommit}, {"badInstall", w.badInstall}, {"fence", w.fence}, {"cleanFailover", w.cleanFailover}, {"pageCut", w.pageCut}}
+		{"staleCommit", w.staleCommit}, {"badInstall", w.badInstall}, {"fence", w.fence}, {"cleanFailover", w.cleanFailover}, {"pageCut", w.pageCut}, {"divergentTail", w.divergentTail}}
 	var bag []string
 	for _, a := range actions {
 		for i := 0; i < a.w; i++ {
@@ -520,6 +520,66 @@ func verifRunScript(rt *rapid.T, k *kit.Case, s *verifSim, o verifScriptOpts) ve
 			if resp && kind == ExchangeReplicate {
 				s.flags["follower durable but response lost"] = true
 			}
+		case "divergentTail":
+			// leave an unacknowledged minority tail on the isolated old leader, move
+			// leadership, append under the new authority, then let the old leader
+			// back in as a follower whose log end equals the next proposal's base
+			L := s.control[c].Leader
+			ln := s.node(L)
+			if !s.isUp(L) || isolated[L] || s.outSet(isolated) >= N-Q || N < 3 {
+				continue
+			}
+			if _, ok := ln.installed[c]; !ok {
+				continue
+			}
+			note("divergentTail ch=%d oldLeader=%d", c, L)
+			for _, m := range s.nodes {
+				if m.id != L {
+					s.setCut(L, m.id, true)
+				}
+			}
+			isolated[L] = true
+			lone := &verifSimCommand{channel: c, node: L, proposal: Proposal{Key: verifSimChannelKey(c), Expected: ln.installed[c].ID, CommandID: s.newCommandID(),
+				Records: s.newRecords(c, rapid.IntRange(1, 2).Draw(rt, "tailRecs"), ln.installed[c].ID.ChannelEpoch, []byte("lone"))}}
+			s.commands = append(s.commands, lone)
+			if _, err := s.commit(lone); err == nil {
+				st.acks++
+			}
+			target := verifDrawNode(rt, s, "failoverTarget", func(n *verifSimNode) bool { return s.isUp(n.id) && !isolated[n.id] })
+			if target == nil {
+				continue
+			}
+			doFailover(c, target, true)
+			if inst, ok := target.installed[c]; ok && s.control[c].Leader == target.id {
+				for i := rapid.IntRange(1, 2).Draw(rt, "newLeaderCommits"); i > 0; i-- {
+					cmd := &verifSimCommand{channel: c, node: target.id, proposal: Proposal{Key: verifSimChannelKey(c), Expected: inst.ID, CommandID: s.newCommandID(),
+						Records: s.newRecords(c, rapid.IntRange(1, 2).Draw(rt, "nrec"), inst.ID.ChannelEpoch, []byte("new"))}}
+					s.commands = append(s.commands, cmd)
+					if _, err := s.commit(cmd); err == nil {
+						st.acks++
+					}
+				}
+			}
+			for _, m := range s.nodes {
+				if m.id != L {
+					s.setCut(L, m.id, false)
+				}
+			}
+			delete(isolated, L)
+			if rapid.Bool().Draw(rt, "commitAfterRejoin") {
+				if inst, ok := target.installed[c]; ok && s.control[c].Leader == target.id {
+					cmd := &verifSimCommand{channel: c, node: target.id, proposal: Proposal{Key: verifSimChannelKey(c), Expected: inst.ID, CommandID: s.newCommandID(),
+						Records: s.newRecords(c, 1, inst.ID.ChannelEpoch, []byte("rejoin"))}}
+					s.commands = append(s.commands, cmd)
+					if _, err := s.commit(cmd); err == nil {
+						st.acks++
+					}
+				}
+			}
+			if !s.quiesce(time.Second) {
+				s.flags["quiesce timed out"] = true
+			}
+			s.flags["old leader rejoined with an unacknowledged minority tail"] = true
 		case "pageCut":
 			// let j recovery pages (Fetch exchanges) through, then lose the next ones:
 			// an Install is interrupted between two atomic page replacements
@@ -592,14 +652,16 @@ func verifRunScript(rt *rapid.T, k *kit.Case, s *verifSim, o verifScriptOpts) ve
 }
 
 func verifC01Weights() verifScriptWeights {
-	return verifScriptWeights{commit: 10, retry: 2, failover: 6, reinstall: 2, crash: 3, restart: 3, isolate: 2, cut: 2, heal: 2, drop: 3, flush: 3, staleCommit: 2, cleanFailover: 4}
+	return verifScriptWeights{commit: 10, retry: 2, failover: 6, reinstall: 2, crash: 3, restart: 3, isolate: 2, cut: 2, heal: 2, drop: 3, flush: 3, staleCommit: 2, cleanFailover: 4, divergentTail: 2}
 }
 
 func verifDrawTopology(rt *rapid.T) (int, int) {
 	switch rapid.IntRange(0, 9).Draw(rt, "topology") {
 	case 0:
 		return 1, 1
-	case 1, 2:
+	case 1:
+		return 5, 3
+	case 2:
 		if kit.Thorough() {
 			return 5, 3
 		}
